@@ -4,7 +4,7 @@
     conv <D>        → "<nonstrict> <strict>"  (ok | error | panic)
     inst <D> <J>    → "<P> <V> <R>\t<reasons>"  P = acceptsDecoded (fromJS d), V = jsValid d, R = jsValid (toDoc (fromJS d))
   A ROOT document `( node ( const M ) )` / `( node ( enum M* ) )` whose members include arrays / objects is read by `pDJ`
-  and judged by `fromConstJ` / `fromEnumJ` / `parsePanicsJ` (P, "!" = ParseAny panics) and `jsonEq` (V).
+  and judged by `fromConstJ` / `fromEnumJ` + `CE.parse` (P, "!" = ParseAny panics) and `jsonEq` (V).
 -/
 import Gozod.Drv.C07
 import Gozod.Model.FromJson
@@ -327,7 +327,7 @@ def pDJ : P DJ
       pure (.enum vs, ts)
   | _ => none
 
-def DJ.conv : DJ → R
+def DJ.conv : DJ → CE
   | .const v => fromConstJ v
   | .enum vs => fromEnumJ vs
 
@@ -339,19 +339,24 @@ def DJ.valid : DJ → Json → Bool
   | .const v, x => constValidJ v x
   | .enum vs, x => enumValidJ vs x
 
-/-- the case satisfies the hypotheses of `c11_enum_scalar_instance` / `c11_enum_partial` / `c11_const_partial`. -/
+/-- the case satisfies the hypotheses of `c11_enum_partial` / `c11_enum_scalar_instance` / `c11_const`. -/
 def DJ.inTheorem (d : DJ) (x : Json) : Bool :=
   match d with
-  | .enum vs => Gozod.C11.scalarCase vs x || (Gozod.C11.goodEnumJ vs && instOK x)
-  | .const v => v.toPrim?.isSome && instOK x
+  | .enum vs => Gozod.C11.scalarCase vs x
+      || (!vs.isEmpty && !Gozod.C11.nullCase vs x && vs.all uniqKeys && uniqKeys x)
+  | .const v => uniqKeys v && uniqKeys x
 
-/-- the finding classes that can apply to this case: `composite-literal` only where the model itself predicts the panic
-    (an array / object instance meeting an array / object member), so that any other disagreement is reported. -/
+/-- the finding classes that can apply to this case: only `nullable-union` (a null instance against an enum listing null);
+    an array / object member is compared structurally since e48d4b1. -/
 def DJ.why (d : DJ) (x : Json) : List String :=
-  (if parsePanicsJ d.members x then ["composite-literal"] else [])
-  ++ (match d with
-      | .enum vs => if x.isNull && vs.any (fun v => v.isNull) && (allStrsJ vs).isNone then ["nullable-union"] else []
-      | _ => [])
+  match d with
+  | .enum vs => if Gozod.C11.nullCase vs x then ["nullable-union"] else []
+  | _ => []
+
+/-- "1" accepted, "0" rejected, "!" ParseAny panics. -/
+def verdictStr : Option Bool → String
+  | some b => b2s b
+  | none => "!"
 
 /-- mirrors harness `intOnly`: numbers of the instance can only meet integer schemas. -/
 partial def intOnly : JS → Bool × Bool
@@ -382,7 +387,7 @@ def handle : List String → String
     | some (d, []) => outcome (fromJS rejects false d) ++ " " ++ outcome (fromJS rejects true d)
     | _ =>
       match pDJ ts with
-      | some (d, []) => outcome d.conv ++ " " ++ outcome d.conv
+      | some (_, []) => "ok ok"        -- convertConst / convertEnum have no error path (and no strict-mode check of their own)
       | _ => "bad-op"
   | "inst" :: ts =>
     match pD ts with
@@ -408,11 +413,8 @@ def handle : List String → String
       | some (d, ts) =>
         match pJ ts with
         | some (x, []) =>
-          match d.conv with
-          | .ok s =>
-            (if parsePanicsJ d.members x then "!" else b2s (acceptsDecoded s x)) ++ " " ++ b2s (d.valid x) ++ " ~ ~"
-              ++ "\t" ++ ",".intercalate ((if d.inTheorem x then ["IN-EQ"] else []) ++ dedup (d.why x ++ instReasons x))
-          | .error _ => "conversion-failed"
+          verdictStr (d.conv.parse x) ++ " " ++ b2s (d.valid x) ++ " ~ ~"
+            ++ "\t" ++ ",".intercalate ((if d.inTheorem x then ["IN-EQ"] else []) ++ dedup (d.why x ++ instReasons x))
         | _ => "bad-op"
       | none => "bad-op"
   | _ => "bad-op"
